@@ -231,6 +231,16 @@ def prepare(rng, sc):
             sc["dt"] = gen.logu(rng, 1e-4, 1.0)
         else:
             sc["dt"] = sc["removal"] * sc["m0"] / (tot * sc["A"])
+            u = rng.random()
+            if u < 0.12:
+                # a step length given as a whole number of hours (a Python int or a numpy integer): the area takes up the difference
+                import numpy
+                k = rng.choice([1, 1, 2, 3, 5])
+                sc["A"] = float(sc["A"]) * sc["dt"] / k
+                sc["dt"] = k if rng.random() < 0.7 else numpy.int64(k)
+            elif u < 0.2:
+                import numpy
+                sc["dt"] = numpy.float64(sc["dt"])
     if sc.get("want_prog") and sc["prog"] is None:
         if sc.get("extreme_prog"):
             sc["prog"] = make_extreme_program(rng, sc["T0"], sc["dt"] * sc["N"], mix=sc["mix"], last_time=sc["dt"] * (sc["N"] - 1),
